@@ -67,6 +67,8 @@ func ruleAppendOwnedFiltered(p *Prog, r *Res, rule string, pkgs []string, floor 
 				r.Ok(rule, key, p.Pos(c), why)
 			case serviceListSplice(p, f, c):
 				r.Exempt(rule, key, p.Pos(c), "in-place change of Manager.indexes, the service goroutine's own list, assigned back to it: holders outside the loop only ever get copies (C10-b index-list-ownership, C13-f), and the splice itself is judged by C13-b/C07-d")
+			case !compaction && accumulatorHelper(p, oc, f, c):
+				r.Ok(rule, key, p.Pos(c), "append to the receiver/parameter of a helper that returns the result, and every call has the form x = x.helper(…) with x owned by the caller: the helper extends its caller's own slice")
 			case !compaction && selfAppendThroughPointer(f, c):
 				r.Ok(rule, key, p.Pos(c), "self-append to a field of the object behind a pointer (x.f = append(x.f, …)): an extension never overwrites elements other holders of the old header can see, and no value copy of the struct is appended to (those sites are judged separately)")
 			case compaction && appendExempt[f.Key()] != "":
@@ -255,4 +257,104 @@ func rootIdentOf(e ast.Expr) *ast.Ident {
 			return nil
 		}
 	}
+}
+
+// accumulatorHelper: `return append(P, …)` where P is the receiver or a parameter of f (a declared function of the
+// package), and every call of f in the program is the right side of `x = <call>` with x passed as that receiver or
+// parameter and owned by the calling function at that point.
+func accumulatorHelper(p *Prog, oc *ownCtx, f *Fn, c *ast.CallExpr) bool {
+	if f.Lit != nil || f.Decl == nil {
+		return false
+	}
+	info := f.Pkg.TypesInfo
+	po := identObj(info, c.Args[0])
+	if po == nil {
+		return false
+	}
+	// position of P: -1 receiver, k parameter index
+	pos, found := 0, false
+	if f.Decl.Recv != nil && len(f.Decl.Recv.List) == 1 && len(f.Decl.Recv.List[0].Names) == 1 && info.Defs[f.Decl.Recv.List[0].Names[0]] == po {
+		pos, found = -1, true
+	}
+	k := 0
+	if f.Decl.Type.Params != nil {
+		for _, fld := range f.Decl.Type.Params.List {
+			for _, nm := range fld.Names {
+				if info.Defs[nm] == po {
+					pos, found = k, true
+				}
+				k++
+			}
+		}
+	}
+	if !found {
+		return false
+	}
+	// the append is returned as it is
+	returned := false
+	inspectShallow(f.Body(), func(x ast.Node) bool {
+		if ret, ok := x.(*ast.ReturnStmt); ok {
+			for _, res := range ret.Results {
+				if ast.Unparen(res) == ast.Expr(c) {
+					returned = true
+				}
+			}
+		}
+		return true
+	})
+	if !returned {
+		return false
+	}
+	fobj, _ := info.Defs[f.Decl.Name].(*types.Func)
+	if fobj == nil {
+		return false
+	}
+	sites, okSites := 0, 0
+	for _, g := range p.FnList {
+		if g.Body() == nil {
+			continue
+		}
+		ginfo := g.Pkg.TypesInfo
+		inspectShallow(g.Body(), func(x ast.Node) bool {
+			as, ok := x.(*ast.AssignStmt)
+			call, isCall := x.(*ast.CallExpr)
+			if isCall {
+				if fn := p.Callee(g.Pkg, call); fn != nil && fn.Origin() == fobj.Origin() {
+					sites++
+				}
+				return true
+			}
+			if !ok || len(as.Lhs) != 1 || len(as.Rhs) != 1 {
+				return true
+			}
+			cc, ok := ast.Unparen(as.Rhs[0]).(*ast.CallExpr)
+			if !ok {
+				return true
+			}
+			fn := p.Callee(g.Pkg, cc)
+			if fn == nil || fn.Origin() != fobj.Origin() {
+				return true
+			}
+			var passed ast.Expr
+			if pos == -1 {
+				if se, ok := ast.Unparen(cc.Fun).(*ast.SelectorExpr); ok {
+					passed = se.X
+				}
+			} else if pos < len(cc.Args) {
+				passed = cc.Args[pos]
+			}
+			if passed == nil || identObj(ginfo, passed) == nil || identObj(ginfo, passed) != identObj(ginfo, as.Lhs[0]) {
+				return true
+			}
+			save := oc.use
+			oc.use = cc
+			owned, _ := oc.owned(g, passed)
+			oc.use = save
+			if owned {
+				okSites++
+			}
+			return true
+		})
+	}
+	return sites > 0 && sites == okSites
 }
